@@ -265,6 +265,46 @@ def ref_resize(arr, newshp, offs, mode, c=0):
     kw = {'constant_values': c} if mode == 'constant' else {}
     return np.pad(a, pads, mode={'constant': 'constant', 'periodic': 'wrap', 'symmetric': 'reflect',
                                  'order0': 'edge'}[mode], **kw)
+def matrix_out(f, ishape, oshape, order='C'):
+    # matrix of a map called as f(a, out) with a caller-supplied NaN-filled `out`
+    n = int(np.prod(ishape)); cols = []
+    for j in range(n):
+        e = np.zeros(n); e[j] = 1.0
+        out = np.full(tuple(oshape), np.nan, order=order)
+        f(e.reshape(ishape), out)
+        cols.append(np.asarray(out).ravel())
+    return np.array(cols).T.reshape(int(np.prod(oshape)), n)
+def transpose_oracle(ishape, oshape, offs, mode, order='C'):
+    # forward and adjoint matrices from unit vectors, through out= with garbage in it
+    M = matrix_out(lambda a, o: resize_array(a, tuple(oshape), offset=list(offs), pad_mode=mode, out=o), ishape, oshape, order)
+    A = matrix_out(lambda a, o: resize_array(a, tuple(ishape), offset=list(offs), pad_mode=mode, direction='adjoint', out=o),
+                   oshape, ishape, order)
+    M0 = matrix(lambda a: resize_array(a, tuple(oshape), offset=list(offs), pad_mode=mode), ishape, oshape)
+    return M, A, M0
+def op_transpose_oracle(op):
+    dom, ran = op.domain, op.range
+    def fwd(a, o):
+        el = ran.element(o); op(dom.element(a), out=el); o[...] = np.asarray(el)
+    def adj(a, o):
+        el = dom.element(o); op.adjoint(ran.element(a), out=el); o[...] = np.asarray(el)
+    return matrix_out(fwd, dom.shape, ran.shape), matrix_out(adj, ran.shape, dom.shape)
+def range_oracle(X, op, offs):
+    # cell sides kept; copied samples keep their physical position; .inverse exists and undoes op
+    R = op.range
+    ok = bool(np.allclose(R.cell_sides, X.cell_sides, rtol=1e-12, atol=0))
+    for ax in range(X.ndim):
+        n, m, o = X.shape[ax], R.shape[ax], int(op.offset[ax])
+        gx, gr = X.grid.coord_vectors[ax], R.grid.coord_vectors[ax]
+        if m >= n:
+            ok = ok and o + n <= m and bool(np.allclose(gr[o:o + n], gx, rtol=0, atol=1e-12 * (1 + abs(gx).max())))
+            ok = ok and R.min_pt[ax] <= gx[0] + 1e-12 and R.max_pt[ax] >= gx[-1] - 1e-12
+        if offs is not None and offs[ax] is not None and m > n:
+            ok = ok and o == offs[ax]
+    inv = op.inverse
+    x = X.element(np.arange(1, X.size + 1, dtype=float).reshape(X.shape))
+    if all(m >= n for n, m in zip(X.shape, R.shape)):
+        ok = ok and bool(np.array_equal(np.asarray(inv(op(x))), np.asarray(x)))
+    return ok
 def matrix(f, ishape, oshape):
     n = int(np.prod(ishape)); cols = []
     for j in range(n):
@@ -274,6 +314,20 @@ def matrix(f, ishape, oshape):
 """
 _REF = {}
 exec(_REF_SRC, _REF)
+
+
+def _pads_for(mode, n):
+    """(pl, pr) pairs: left only / right only / both, legal for the mode on an axis of length n"""
+    lim = {'symmetric': n - 1, 'periodic': n, 'order0': 3 if n >= 1 else 0, 'order1': 3 if n >= 2 else 0,
+           'constant': 3}[mode]
+    out = []
+    for k in (1, 2, 3):
+        if k <= lim:
+            out += [(k, 0), (0, k)]
+    for a, b in ((1, 1), (1, 2), (2, 1), (lim, lim)):
+        if 0 < a <= lim and 0 < b <= lim and (a, b) not in out:
+            out.append((a, b))
+    return out
 
 
 def _legal_config(rng, mode, ndim, hi, allow_shrink=True):
@@ -538,7 +592,133 @@ def probes(rng, tier):
             ok, _ = _run(rp)
             out.append(C.Probe(ok, 'out-param-%s' % mode,
                                'resize_array(out=NaN-filled %s-order array) gives the same result and leaves the input unchanged' % order, rp))
+    out += transpose_probes(rng, tier)
+    out += range_flag_probes(rng, tier)
     return out
+
+
+def transpose_probes(rng, tier, only_mode=None, sizes=None):
+    """adjoint == exact transpose of the forward matrix built from unit vectors, through a caller-supplied
+    NaN-filled `out`; array level and operator level; every mode, axis lengths 1, 2, 3, left / right / both
+    paddings, shrinking, and 2-d mixed grow + shrink."""
+    out = []
+    pre = "import numpy as np, odl\nfrom odl.util.numerics import resize_array\n" + _REF_SRC
+    sizes = sizes or ([1, 2, 3] if tier == 'quick' else [1, 2, 3, 4, 5])
+    for mode in ([only_mode] if only_mode else MODES):
+        confs = []
+        for n in sizes:
+            for pl, pr in _pads_for(mode, n):
+                confs.append(([n], [n + pl + pr], [pl]))           # growing
+                confs.append(([n + pl + pr], [n], [pl]))           # shrinking
+        # 2-d: one axis grows while the other shrinks, and both grow
+        for n in sizes[:3]:
+            pads = _pads_for(mode, n)
+            if not pads:
+                continue
+            pl, pr = rng.choice(pads)
+            k = rng.randint(1, 2)
+            confs.append(([n, n + k], [n + pl + pr, n], [pl, rng.randint(0, k)]))
+            confs.append(([n + k, n], [n, n + pl + pr], [rng.randint(0, k), pl]))
+            pl2, pr2 = rng.choice(pads)
+            confs.append(([n, n], [n + pl + pr, n + pl2 + pr2], [pl, pl2]))
+        for ish, osh, offs in confs:
+            order = rng.choice(['C', 'F'])
+            rp = pre + ("M,A,M0=transpose_oracle(%r,%r,%r,%r,%r)\nobserved=A.tolist(); expected=M.T.tolist()\n"
+                        "ok=bool(np.array_equal(A,M.T) and np.array_equal(M,M0))\n" % (ish, osh, offs, mode, order))
+            ok, _ = _run(rp)
+            out.append(C.Probe(ok, 'transpose-out-%s' % mode,
+                               'adjoint matrix == transpose of forward matrix (unit vectors, NaN-filled %s-order out), %s %s->%s offset %s'
+                               % (order, mode, ish, osh, offs), rp))
+            rp = pre + ("X=odl.uniform_discr(%r,%r,%r)\nop=odl.ResizingOperator(X,ran_shp=%r,offset=%r,pad_mode=%r)\n"
+                        "M,A=op_transpose_oracle(op)\nobserved=A.tolist(); expected=M.T.tolist()\n"
+                        "M0=matrix(lambda a: resize_array(a,%r,offset=[int(o) for o in op.offset],pad_mode=%r),%r,%r)\n"
+                        "ok=bool(np.array_equal(A,M.T) and np.array_equal(M,M0))\n"
+                        % ([0.0] * len(ish), [float(n) for n in ish], ish, tuple(osh),
+                           [o if a <= b else None for o, a, b in zip(offs, ish, osh)] if any(a > b for a, b in zip(ish, osh)) else offs,
+                           mode, tuple(osh), mode, ish, osh))
+            if any(a > b for a, b in zip(ish, osh)):
+                # restriction with explicit offset is a recorded finding of the range, not of the matrices: use default offsets
+                rp = rp.replace("offset=%r,pad_mode" % ([o if a <= b else None for o, a, b in zip(offs, ish, osh)],),
+                                "pad_mode")
+            ok, _ = _run(rp)
+            out.append(C.Probe(ok, 'op-transpose-out-%s' % mode,
+                               'ResizingOperator.adjoint matrix == transpose of the operator matrix (out= pre-filled with NaN), %s %s->%s'
+                               % (mode, ish, osh), rp))
+    return out
+
+
+def range_flag_probes(rng, tier, only=None):
+    """range built from ran_shp + discr_kwargs nodes_on_bdry with per-side flags: same cell sides, the range
+    grid continues the domain grid, the enlarged domain is covered, .inverse can be built and undoes op."""
+    out = []
+    pre = "import numpy as np, odl\nfrom odl.util.numerics import resize_array\n" + _REF_SRC
+    F = [(False, False), (True, True), (True, False), (False, True)]
+    confs = []
+    for dom_f in F:
+        for kw_f in F + [True, False]:
+            for n, pl, pr in ((3, 1, 2), (2, 0, 1), (4, 2, 0)):
+                confs.append(([n], [dom_f], [n + pl + pr], [pl], kw_f if not isinstance(kw_f, bool) else kw_f))
+    # 2-d with mixed forms like [(False, True), True]
+    for kw in ([(False, True), True], [True, (True, False)], [(True, False), (False, True)], [False, (True, True)]):
+        for dom_f in ([(False, False), (False, False)], [(True, False), (False, True)], [(True, True), (False, False)]):
+            confs.append(([3, 2], dom_f, [5, 4], [1, 2], kw))
+            confs.append(([3, 4], dom_f, [6, 4], [None, 0], kw))
+    if only is not None:
+        confs = only
+    for shape, dom_f, nnew, offs, kw in confs:
+        ndim = len(shape)
+        cs_ = [rng.choice([0.5, 0.25, 1.0, 2.0]) for _ in range(ndim)]
+        mn = [rng.choice([0.0, -1.0, 3.0]) for _ in range(ndim)]
+        mx = []
+        for a in range(ndim):
+            bl, br = dom_f[a]
+            mx.append(mn[a] + (shape[a] - 0.5 * (bl + br)) * cs_[a])
+        mode = rng.choice(MODES)
+        if mode == 'symmetric' and any(m - n >= n for n, m in zip(shape, nnew)):
+            mode = 'order0'
+        offarg = None if all(o is None for o in offs) else offs
+        rp = pre + ("X=odl.uniform_discr(%r,%r,%r,nodes_on_bdry=%r)\n"
+                    "op=odl.ResizingOperator(X,ran_shp=%r,offset=%r,pad_mode=%r,discr_kwargs={'nodes_on_bdry':%r})\n"
+                    "observed=(op.range.min_pt.tolist(),op.range.max_pt.tolist(),op.range.cell_sides.tolist(),list(op.offset))\n"
+                    "expected='cell sides %%r, grid continued, inverse exists' %% (X.cell_sides.tolist(),)\n"
+                    "ok=range_oracle(X,op,%r)\n" % (mn, mx, shape, dom_f if ndim > 1 else dom_f[0], tuple(nnew), offarg, mode,
+                                                     kw if ndim > 1 or isinstance(kw, bool) else kw, offs))
+        ok, _ = _run(rp)
+        mixed = (not isinstance(kw, bool)) and len(set(isinstance(f, bool) for f in kw)) > 1
+        out.append(C.Probe(ok, 'range-flags-mixed-form' if mixed else 'range-flags',
+                           'ResizingOperator range with nodes_on_bdry %r (domain %r) %s->%s: cell sides, '
+                           'grid continuation, coverage, inverse' % (kw, dom_f, shape, nnew), rp))
+    return out
+
+
+def search(rng, broken):
+    """A proof or a correspondence shard broke and no probe failed: evaluate the property oracles on the failing
+    correspondence inputs themselves, on shrunk variants and on the neighbourhood (same mode, all small sizes)."""
+    C.setup_impl_path()
+    known = C.load_findings(PID)
+    cands = []
+    for kind, what, detail in broken:
+        if kind != 'correspondence' or not isinstance(detail, dict):
+            continue
+        mode = detail.get('mode')
+        if 'domain' in detail:      # operator case
+            dom = detail['domain']
+            conf = ([d[2] for d in dom], [tuple(d[3]) for d in dom], list(detail['ran_shp']),
+                    list(detail['offset']), [tuple(f) for f in detail['kw_nodes_on_bdry']])
+            cands += range_flag_probes(rng, 'quick', only=[conf])
+            cands += range_flag_probes(rng, 'quick')
+            if mode:
+                cands += transpose_probes(rng, 'quick', only_mode=mode)
+        elif mode:
+            ish = detail.get('ishape') or [len(detail.get('arr', []))]
+            cands += transpose_probes(rng, 'thorough', only_mode=mode,
+                                      sizes=sorted(set([1, 2, 3] + [n for n in ish if 0 < n <= 6])))
+    if not cands:
+        cands = transpose_probes(rng, 'thorough') + range_flag_probes(rng, 'thorough')
+    for p in cands:
+        if not p.ok and p.key not in known:
+            return p
+    return None
 
 
 LEVEL_TEXT = ('Proof: for the slice arithmetic and legality guards regenerated from odl/util/numerics.py on every run, '
